@@ -125,16 +125,26 @@ def algebra_case(rnd, D):
         elif kind == "logspace":
             import hmclab
             inner = D.Normal(arr([rnd.randint(-8, 8) / 8.0 for _ in range(d)]), arr([rnd.choice([0.5, 1.0, 2.0]) for _ in range(d)]))
+            ik = rnd.choice(["normal", "uniform", "composite"])
+            if ik == "uniform":
+                # a log-uniform prior: the distribution in log space only compares its argument with bounds
+                inner = D.Uniform(arr([-20.0 - rnd.randint(0, 4)] * d), arr([20.0 + rnd.randint(0, 4)] * d))
+            elif ik == "composite":
+                inner = D.CompositeDistribution([D.Uniform(arr([-24.0]), arr([22.0])) if rnd.random() < 0.6 else D.Normal(arr([0.25]), arr([2.0])) for _ in range(d)])
             base = rnd.choice([10.0, 2.0, math.e, 1.5])
             t = D.TransformToLogSpace(inner, base=base)
             m = arr([rnd.choice([0.125, 0.5, 1.0, 2.0, 7.5, 30.0]) for _ in range(d)])
             want = inner.misfit(numpy.log(m) / math.log(base)) + float(numpy.sum(numpy.log(m * math.log(base))))
             if not close(t.misfit(m.copy()), want, 1e-10):
                 out.append(("logspace-jacobian", f"TransformToLogSpace(base={base}) misfit {t.misfit(m.copy())} at {col(m)}, change of variables gives {want}"))
-            neg = m.copy()
-            neg[rnd.randrange(d), 0] *= -1.0
-            if not (t.misfit(neg.copy()) == INF):
-                out.append(("logspace-negative", f"TransformToLogSpace misfit at {col(neg)} (negative component) is {t.misfit(neg.copy())}, not +inf"))
+            for j in range(d):          # every component in turn
+                neg = m.copy()
+                neg[j, 0] *= -1.0
+                with numpy.errstate(all="ignore"):
+                    got = t.misfit(neg.copy())
+                if not (got == INF):
+                    out.append(("logspace-negative", f"TransformToLogSpace[{ik}] misfit at {col(neg)} (negative component) is {got}, not +inf"))
+                    break
         elif kind == "temperature":
             T = rnd.choice([0.25, 0.5, 2.0, 3.0, 10.0])
             if rnd.random() < 0.5:
